@@ -23,8 +23,8 @@ import (
 // TamperCase is one directory set handed to combine.
 type TamperCase struct {
 	Alteration string `json:"alteration"`
-	Position   int    `json:"position"` // index of the node directory that holds the altered / foreign lock
-	AloneClass string `json:"altered_lock_alone"` // how the altered lock is judged on its own (must not be "ok")
+	Position   int    `json:"position"`                  // index of the node directory that holds the altered / foreign lock
+	AloneClass string `json:"altered_lock_alone"`        // how the altered lock is judged on its own (must not be "ok")
 	Verify     string `json:"combine_with_verification"` // refused | ACCEPTED | stalled
 	NoVerify   string `json:"combine_no_verify"`         // refused | accepted | stalled
 	Detail     string `json:"detail,omitempty"`
